@@ -80,3 +80,132 @@ def hidden_state_rule(rule, cs):
         rule.ok("%s:file-scope and static variables enumerated" % fname, "src/C/%s" % fname, "%d variables, %d written outside module init"
                 % (len(cand), len(writes)))
     return nvars
+
+
+def notimplemented_rule(rule, cs, files=("dense.c", "sparse.c", "base.c")):
+    """A function that may hand back the Py_NotImplemented singleton (directly or by
+    returning another such function's result) does not return a matrix on that path: a caller
+    that stores the result and then reads matrix fields from it (MAT_*/SP_*/X_* macros, `->`)
+    must compare it with Py_NotImplemented first."""
+    from . import cexpr as cx
+    texts = {}
+    for f in files:
+        c = cs[f]
+        for fn in c.order:
+            t = cx.strip_pp(c.text(c.funcs[fn]["b"], c.funcs[fn]["e"]))
+            t = re.sub(r"/\*.*?\*/", "", t, flags=re.S)
+            texts[(f, fn)] = t
+    prod = {fn for (f, fn), t in texts.items() if re.search(r"return\s+Py_NotImplemented|Py_RETURN_NOTIMPLEMENTED", t)}
+    changed = True
+    while changed:
+        changed = False
+        for (f, fn), t in texts.items():
+            if fn in prod:
+                continue
+            if any(re.search(r"return\s+%s\s*\(" % re.escape(p), t) for p in prod):
+                prod.add(fn)
+                changed = True
+    if len(prod) < 5:
+        from .core import AnalysisError
+        raise AnalysisError("NotImplemented producers not found (%s)" % sorted(prod))
+    n = 0
+    alt = "|".join(sorted(map(re.escape, prod)))
+    for (f, fn), t in texts.items():
+        for m in re.finditer(r"\b(\w+)\s*=\s*(%s)\s*\(" % alt, t):
+            v, callee = m.group(1), m.group(2)
+            rest = t[m.end():]
+            nxt = re.search(r"\b%s\s*=[^=]" % re.escape(v), rest)      # until the variable is re-assigned
+            if nxt:
+                rest = rest[:nxt.start()]
+            uses = re.findall(r"(?:MAT_\w+|SP_\w+|X_\w+)\(\s*%s\s*\)|\b%s\s*->" % (re.escape(v), re.escape(v)), rest)
+            n += 1
+            key = "%s:%s:%s = %s(..)" % (f, fn, v, callee)
+            where = "src/C/%s:%s" % (f, fn)
+            if not uses:
+                rule.ok(key, where, "result passed on without being read as a matrix")
+            elif re.search(r"%s\s*[!=]=\s*Py_NotImplemented|Py_NotImplemented\s*[!=]=\s*%s" % (re.escape(v), re.escape(v)), rest):
+                rule.ok(key, where, "compared with Py_NotImplemented before its fields are read")
+            else:
+                rule.violation(key, where,
+                               "`%s` may be the Py_NotImplemented singleton (returned by %s for an operand that is neither a number nor a matrix) "
+                               "and its matrix fields are read (%s) without a test: SIGSEGV for e.g. `A - None`" % (v, callee, uses[0]),
+                               "if (%s == Py_NotImplemented) return %s;" % (v, v), uses[:2])
+    rule.ok("NotImplemented producers enumerated", "src/C", sorted(prod)[:12])
+    return n
+
+
+ENUM = {0: "INT", 1: "DOUBLE", 2: "COMPLEX"}
+
+
+def null_table_rule(rule, cs, files=("base.c", "dense.c", "sparse.c")):
+    """Per-type dispatch tables `T[] = { f_int, f_double, f_complex }` with NULL entries: every
+    call `T[id](..)` is preceded, in the calling function, by a rejecting test that excludes each
+    type whose entry is NULL (`id == COMPLEX -> error`).  For the INT entry of the sparse tables
+    the exclusion may come from the data invariant 'a sparse matrix is never of type INT' together
+    with a rejecting test that forces all operand types to be equal."""
+    from . import cexpr as cx
+    from . import cmodel as cm
+    tables = {}
+    for f in files:
+        txt = cx.strip_pp(cs[f].srcb.decode(errors="replace"))
+        txt = re.sub(r"/\*.*?\*/", "", txt, flags=re.S)
+        for m in re.finditer(r"\(\s*\*\s*(\w+)\s*\[\s*\]\s*\)\s*\([^;{]*?\)\s*=\s*\{([^}]*)\}", txt, re.S):
+            ents = [e.strip() for e in m.group(2).split(",") if e.strip()]
+            nulls = [i for i, e in enumerate(ents) if e == "NULL"]
+            if nulls:
+                tables[m.group(1)] = nulls
+    if len(tables) < 4:
+        from .core import AnalysisError
+        raise AnalysisError("dispatch tables with NULL entries not found: %s" % sorted(tables))
+    n = 0
+    for f in files:
+        c = cs[f]
+        for fn in c.order:
+            node = c.funcs[fn]
+            body = cx.strip_pp(c.text(node["b"], node["e"]))
+            body = re.sub(r"/\*.*?\*/", "", body, flags=re.S)
+            for T, nulls in tables.items():
+                for m in re.finditer(r"\b%s\s*\[\s*([^\]]+?)\s*\]\s*\(" % re.escape(T), body):
+                    before = body[:m.start()]
+                    const = [i for i, e in ENUM.items() if e == m.group(1).strip()]
+                    for k in nulls:
+                        if const:
+                            n += 1
+                            key = "%s:%s:%s[%s] excludes %s" % (f, fn, T, m.group(1), ENUM[k])
+                            where = "src/C/%s:%s:%d" % (f, fn, c.line_of(node["b"]) + before.count("\n"))
+                            if const[0] == k:
+                                rule.violation(key, where, "`%s[%s]` is the NULL entry of the table" % (T, m.group(1)), "a non-NULL entry", "NULL")
+                            else:
+                                rule.ok(key, where, "constant index")
+                            continue
+                        n += 1
+                        key = "%s:%s:%s[%s] excludes %s" % (f, fn, T, m.group(1), ENUM[k])
+                        where = "src/C/%s:%s:%d" % (f, fn, c.line_of(node["b"]) + before.count("\n"))
+                        # rejecting tests before the call that mention `== ENUM`
+                        guard = None
+                        for g in re.finditer(r"if\s*\(((?:[^()]|\((?:[^()]|\([^()]*\))*\))*)\)\s*(\w+)", before):
+                            cond, act = g.group(1), g.group(2)
+                            if re.search(r"==\s*%s\b" % ENUM[k], cond) and re.match(r"(PY_ERR\w*|err_\w+|return)$", act):
+                                # the test must reject *whenever* the type is ENUM[k]: a whole disjunct `E == ENUM`
+                                try:
+                                    ds = cm._disjuncts(cx.parse(cond))
+                                except cx.ParseError:
+                                    ds = []
+                                for d in ds:
+                                    d = cx.strip_casts(d)
+                                    if d[0] == "bin" and d[1] == "==" and (cx.strip_casts(d[3]) == ("id", ENUM[k])
+                                                                             or cx.strip_casts(d[2]) == ("id", ENUM[k])):
+                                        guard = " ".join(cond.split())[:70]
+                        if guard:
+                            rule.ok(key, where, "rejected before the call: if (%s)" % guard)
+                        elif k == 0 and T.startswith("sp_") and re.search(r"err_conflicting_ids|!=\s*X_ID|!=\s*SP_ID|!=\s*MAT_ID", before):
+                            rule.ok(key + ":confirmed-invariant", where,
+                                    "a sparse operand is never INT and a rejecting test forces all operand types to be equal")
+                        elif k == 0 and T.startswith("sp_") and f == "sparse.c":
+                            rule.ok(key + ":confirmed-invariant", where, "called on the ccs of a sparse matrix, whose type is never INT")
+                        else:
+                            rule.violation(key, where,
+                                           "`%s[%s](..)` is reached for %s operands, whose table entry is NULL: calling it kills the interpreter"
+                                           % (T, m.group(1), ENUM[k]), "if (.. == %s) <error> before the call" % ENUM[k], "no such test")
+    rule.ok("dispatch tables with NULL entries enumerated", "src/C", {t: [ENUM[i] for i in v] for t, v in tables.items()})
+    return n
